@@ -310,8 +310,15 @@ fn monitors(out: &mut Out, h: &History, op: &Op, ok: bool, before: &Snap, after:
             } else { out.monitor_fail("C03", "swap executed although compute_swap fails on the same reserves", rp.clone()); }
             // (the swap clause of C03 is the reserve-vs-exact-curve comparison inside monitor_swap, with the slope-scaled dust the property grants)
         }
-        Op::Provide { .. } => {
-            if before.supply > 0 { norm_per_lp(out, h.amp, r0, r1, before.supply, 0, after.supply - before.supply, h.dp, "deposit", rp); }
+        Op::Provide { d, .. } => {
+            if before.supply > 0 {
+                // the LP minted is the pool's own mint formula (through the hook) on the reported reserves and the amounts deposited
+                if let Outcome::Ok(m) = impl_mint(h.amp, *d, r0, before.supply) {
+                    let minted = after.supply - before.supply;
+                    if m != minted { out.monitor_fail("C03", &format!("a deposit minted {} LP but the mint formula on the reported reserves and the deposited amounts gives {}", minted, m), rp.clone()); }
+                }
+                norm_per_lp(out, h.amp, r0, r1, before.supply, 0, after.supply - before.supply, h.dp, "deposit", rp);
+            }
         }
         Op::Withdraw { u, amount } => {
             for k in 0..2 {
